@@ -35,8 +35,14 @@ theorem MarkersOk.step {st : LoopSt} (h : MarkersOk st) (m : Marker) (t : List C
     · have := h.2 a ha; omega
     · subst ha; omega
 
-theorem mainLoop_safe (pfuel : Nat) : ∀ fuel st s, s.rest.length < fuel → s.rest.length < pfuel → MarkersOk st →
-    (mainLoop pfuel fuel st s).Sat (fun st' _ => MarkersOk st') := by
+/-- the main loop with enough fuel does not panic, does not run out of fuel, and maintains every predicate on the loop
+state that survives appending text and appending a marker positioned at the end of the text -/
+theorem mainLoop_inv (I : LoopSt → Prop)
+    (hgrow : ∀ (st : LoopSt) (t : List Char) (l : Char), I st → I { st with out := st.out ++ t, last := l })
+    (hstep : ∀ (st : LoopSt) (m : Marker) (t : List Char), I st → m.position = st.out.length →
+      I { out := st.out ++ t, markers := st.markers ++ [m], last := '[' })
+    (pfuel : Nat) : ∀ fuel st s, s.rest.length < fuel → s.rest.length < pfuel → I st →
+    (mainLoop pfuel fuel st s).Sat (fun st' _ => I st') := by
   intro fuel
   induction fuel with
   | zero => intro st s h; exact absurd h (Nat.not_lt_zero _)
@@ -58,7 +64,7 @@ theorem mainLoop_safe (pfuel : Nat) : ∀ fuel st s, s.rest.length < fuel → s.
         | cons b cs' =>
           simp only [incSrc, P.bind]
           simp only [List.length_cons] at hf hp
-          exact ih _ _ (by simp only []; omega) (by simp only []; omega) (hok.grow [b] st.last)
+          exact ih _ _ (by simp only []; omega) (by simp only []; omega) (hgrow st [b] st.last hok)
       · split
         · -- marker
           simp only [P.bind, setPos]
@@ -68,10 +74,22 @@ theorem mainLoop_safe (pfuel : Nat) : ∀ fuel st s, s.rest.length < fuel → s.
             simp only [hms] at hs ⊢
             obtain ⟨hlen, _, m, t, hm, rfl⟩ := hs
             have hlen : s2.rest.length ≤ cs.length := hlen
-            exact ih _ _ (by omega) (by omega) (hok.step m t hm)
+            exact ih _ _ (by omega) (by omega) (hstep st m t hok hm)
           | err _ => simp only [Res.Sat]
           | panic _ => simp only [hms] at hs
           | oof _ => simp only [hms] at hs
         · simp only [incSrc, P.bind]
-          exact ih _ _ (by simp only []; omega) (by simp only []; omega) (hok.grow [c] c)
+          exact ih _ _ (by simp only []; omega) (by simp only []; omega) (hgrow st [c] c hok)
+
+theorem mainLoop_safe (pfuel : Nat) : ∀ fuel st s, s.rest.length < fuel → s.rest.length < pfuel → MarkersOk st →
+    (mainLoop pfuel fuel st s).Sat (fun st' _ => MarkersOk st') :=
+  mainLoop_inv MarkersOk (fun _ t l h => h.grow t l) (fun _ m t h hm => h.step m t hm) pfuel
+
+/-- the markers collected so far stay a prefix of the final marker list -/
+theorem mainLoop_prefix (pfuel : Nat) (base : List Marker) : ∀ fuel st s, s.rest.length < fuel → s.rest.length < pfuel →
+    (∃ more, st.markers = base ++ more) →
+    (mainLoop pfuel fuel st s).Sat (fun st' _ => ∃ more, st'.markers = base ++ more) :=
+  mainLoop_inv (fun st => ∃ more, st.markers = base ++ more) (fun _ _ _ h => h)
+    (fun _ m _ h _ => by obtain ⟨more, hm⟩ := h; exact ⟨more ++ [m], by simp [hm]⟩) pfuel
+
 end Ysgo.Markup
